@@ -26,35 +26,59 @@ var kindRanges = map[string]kindRange{
 var signedOrder = []string{"int8", "int16", "int32", "int64"}
 var unsignedOrder = []string{"uint8", "uint16", "uint32", "uint64"}
 
-// effective integer bounds of an nbCase with integral constants
+// effective integer bounds of an nbCase: the least and the greatest integer the stated bounds admit (exact for
+// fractional constants too: an inclusive minimum m admits ceil(m).., an exclusive one floor(m)+1..)
 func (n nbCase) eff() (lo, hi *big.Int) {
-	f := func(x float64) *big.Int { v, _ := new(big.Float).SetFloat64(x).Int(nil); return v }
+	floor := func(x float64) *big.Int {
+		r := new(big.Rat).SetFloat64(x)
+		q := new(big.Int).Div(r.Num(), r.Denom()) // Euclidean division: floor for a positive denominator
+		return q
+	}
+	ceil := func(x float64) *big.Int {
+		r := new(big.Rat).SetFloat64(x)
+		q := new(big.Int).Div(r.Num(), r.Denom())
+		if !r.IsInt() {
+			q.Add(q, big.NewInt(1))
+		}
+		return q
+	}
 	one := big.NewInt(1)
 	if n.min != nil {
-		lo = f(*n.min)
+		lo = ceil(*n.min)
 		if b, ok := n.xmin.(bool); ok && b {
-			lo = new(big.Int).Add(lo, one)
+			lo = new(big.Int).Add(floor(*n.min), one)
 		}
 	}
 	if q, ok := n.xmin.(float64); ok {
-		c := new(big.Int).Add(f(q), one)
+		c := new(big.Int).Add(floor(q), one)
 		if lo == nil || c.Cmp(lo) > 0 {
 			lo = c
 		}
 	}
 	if n.max != nil {
-		hi = f(*n.max)
+		hi = floor(*n.max)
 		if b, ok := n.xmax.(bool); ok && b {
-			hi = new(big.Int).Sub(hi, one)
+			hi = new(big.Int).Sub(ceil(*n.max), one)
 		}
 	}
 	if q, ok := n.xmax.(float64); ok {
-		c := new(big.Int).Sub(f(q), one)
+		c := new(big.Int).Sub(ceil(q), one)
 		if hi == nil || c.Cmp(hi) < 0 {
 			hi = c
 		}
 	}
 	return
+}
+
+// fractionalNearLimits: constants a fraction away from the limits of the sized types (and from zero)
+func fractionalNearLimits() []float64 {
+	var out []float64
+	for _, b := range []float64{-2147483648, -32768, -128, 0, 127, 255, 32767, 65535, 2147483647, 4294967295} {
+		for _, d := range []float64{-1.5, -0.75, -0.5, -0.25, 0.25, 0.5, 0.75, 1.5} {
+			out = append(out, b+d)
+		}
+	}
+	return out
 }
 
 func within53(v *big.Int) bool {
@@ -160,6 +184,23 @@ func init() {
 				}
 			}
 		}
+		// fractional constants next to the type limits: the type is chosen from a bound that is not itself an admitted
+		// value, so rounding decides (every kind of bound, alone and with an integral partner on the other side)
+		firstFractional := len(cases)
+		for _, a := range fractionalNearLimits() {
+			a := a
+			cases = append(cases, nbCase{min: &a}, nbCase{max: &a}, nbCase{xmin: a}, nbCase{xmax: a}, nbCase{min: &a, xmin: true}, nbCase{max: &a, xmax: true})
+			for _, b := range []float64{-100, 0, 100} {
+				b := b
+				if b < a {
+					cases = append(cases, nbCase{min: &b, max: &a}, nbCase{min: &b, xmax: a}, nbCase{min: &b, max: &a, xmax: true})
+				}
+				if b > a {
+					cases = append(cases, nbCase{min: &a, max: &b}, nbCase{xmin: a, max: &b}, nbCase{min: &a, xmin: true, max: &b})
+				}
+			}
+		}
+		c.Streams["c15-fractional-near-limits"] = len(cases) - firstFractional
 		var reqs [][]byte
 		var ids []string
 		for i, n := range cases {
@@ -279,7 +320,7 @@ func init() {
 		var pcs []*core.PCase
 		stride := c.N(23, 3)
 		for i, n := range cases {
-			if i%stride != 0 {
+			if i%stride != 0 && (i < firstFractional || (i-firstFractional)%c.N(5, 1) != 0) {
 				continue
 			}
 			lo, hi := n.eff()
